@@ -12,6 +12,7 @@ mod c11;
 mod c12;
 mod c13;
 mod c14;
+mod c15;
 mod c16;
 mod refcodec;
 mod refvmess;
@@ -50,6 +51,7 @@ fn main() {
         "c09-stress" => c09::stress(rest),
         "c09-request" => c09::request(rest),
         "c09-salt" => c09::salt_stress(rest),
+        "c15-sink" => c15::sink_replay(rest),
         "c11-replay" => c11::replay(rest),
         "c11-record" => c11::record(rest),
         other => Err(anyhow::anyhow!("unknown subcommand {other}")),
